@@ -43,10 +43,10 @@ impl Ord for Address {
                 this_port.cmp(other_port).then_with(|| this_host.cmp(other_host))
             }
             (Address::Domain(this_host, this_port), Address::Socket(other_addr)) => {
-                this_port.cmp(&other_addr.port()).then_with(|| cmp_ip_addr(this_host.as_bytes(), other_addr.ip()))
+                this_port.cmp(&other_addr.port()).then_with(|| cmp_ip_addr(this_host.as_bytes(), other_addr.ip())).then(std::cmp::Ordering::Less)
             }
             (Address::Socket(this_addr), Address::Domain(other_host, other_port)) => {
-                this_addr.port().cmp(other_port).then_with(|| cmp_ip_addr(other_host.as_bytes(), this_addr.ip()).reverse())
+                this_addr.port().cmp(other_port).then_with(|| cmp_ip_addr(other_host.as_bytes(), this_addr.ip()).reverse()).then(std::cmp::Ordering::Greater)
             }
             (Address::Socket(this), Address::Socket(other)) => this.cmp(other),
         }
